@@ -108,23 +108,114 @@ func init() {
 		ID:    "C09",
 		Level: "exploration",
 		Rule: "every composition to depth 2 (quick, 90 shapes) / 3 (thorough, 819 shapes) of the nine tail contexts {cond arm 1, cond arm 2, cond default, begin, let, letseq, newScope, last of and, last of or} around a self call, times seven bodies (nothing; defines locals; opens/closes scopes and a loop before the call; accumulates closures capturing the parameter and a local; another self call inside an argument of the tail call; the argument itself being a self call; the same below cond/let inside the argument). " +
-			"(a) space: each shape is run at depths 0,1,10,30,100,300,1000 (10^4 for every ninth case in quick and every second in thorough; thorough 10^5 for every ninth case and 10^6 for every 360th; the closure-accumulating body up to 300) while the step hook samples the high-water marks of the data/scope/address/loop stacks; they must be identical for all n>=10 and the run must finish within a step budget linear in n. " +
-			"(b) transparency: value, effect trace and (closure body) the values obtained by calling every accumulated closure equal those of the de-optimised twin (self call wrapped in a host identity call, so not in tail position) on the real VM for n<=100, and those of the reference evaluator (which has no tail calls) for all n. non-trivial = every (shape, body) pair (distinct by construction)",
+			"(a) space: each shape is run at depths 0,1,10,30,100,300,1000 (10^4 for every ninth case in quick and every third in thorough; thorough 10^5 for every 27th case and 10^6 for every 360th, the latter without the reference comparison; the closure-accumulating body up to 300) while the step hook samples the high-water marks of the data/scope/address/loop stacks; they must be identical for all n>=10 and the run must finish within a step budget linear in n. " +
+			"(b) transparency: value, effect trace and (closure body) the values obtained by calling every accumulated closure equal those of the de-optimised twin (self call wrapped in a host identity call, so not in tail position) on the real VM for n<=100, and those of the reference evaluator (which has no tail calls) for all n. (c) non-tail contexts: 34 forms in which more work follows the self call (array/list/hash/template construction, assert, arithmetic, tests, initializers, assignments, loop bodies, non-final operands) and two wrong-arity self calls, each below every tail context: value/error-ness, trace and rest state must equal those of the same function with the self call wrapped in a host identity call. non-trivial = every (shape, body) pair (distinct by construction)",
 		Assumptions: []string{
 			"constant space is checked as equality of stack high-water marks over the explored depths, not for all depths",
 			"heap growth is not judged (the closure-accumulating body grows its accumulator by design)",
 		},
-		NCases:       func(c *core.Ctx) int { return len(c09Shapes(thorN(c, 2, 3))) * c09Bodies },
+		NCases:       func(c *core.Ctx) int { return len(c09Shapes(thorN(c, 2, 3)))*c09Bodies + c09NonTailCases() },
 		Chunk:        15,
 		Exhaustive:   func(c *core.Ctx) bool { return true },
-		MustSee:      []string{"depth_runs", "twin_comparisons", "reference_comparisons", "highwater_samples"},
+		MustSee:      []string{"depth_runs", "twin_comparisons", "reference_comparisons", "highwater_samples", "non_tail_contexts"},
 		CaseTimeoutS: 120,
 		Run:          c09Run,
 	})
 }
 
+// Non-tail contexts: forms in which a self call is followed by more work (the array is
+// built, the value is tested, spliced, added to ...). X marks the self call.
+var c09NonTail = []string{
+	"[X]", "[1 X]", "[X 1]", "(begin [X])", "(assert X)", "^(a ~X)", "^[1 ~X]", "^(a ~@(list X))", "(hash a: X)", "(list X 2)", "(not X)", "(+ 1 X)",
+	"(str X)", "(let [q X] q)", "(letseq [p 1 q X] q)", "(begin (x9 = X) x9)", "(begin (mdef u9 v9 (list X 2)) u9)", "(and X 1)", "(or X 1)", "(cond X 1 2)",
+	"(begin (for [(def i 0) (< i 1) (def i (+ i 1))] X) 4)", "(newScope X 1)", "(begin X 1)", "(aget [X] 0)", "(first (list X))", "((fn [z] z) X)", "(apply + [X 1])",
+	"{1 + X}", "(len [X X])", "(begin (def d9 X) d9)", "(begin (set n X) n)", "(* 2 (+ 1 X))", "(list (list X))", "(cond (== 1 (len [X])) 5 6)",
+}
+
+// self calls: the well-formed one and two with the wrong number of arguments (must fail, in both variants)
+var c09Self = []string{"(f (- n 1))", "(f (- n 1) 7)", "(f)"}
+
+func c09NonTailCases() int { return (len(c09NonTail) + len(c09Self) - 1) * (len(c09Ctx) + 1) }
+
+// c09NonTailRun: a self call inside a form that still has work to do after it must not be
+// compiled as a jump, whatever tail context surrounds that form. Oracle: the same function with
+// the self call wrapped in a host identity call (certainly not a tail call), on the real VM.
+func c09NonTailRun(c *core.Ctx, k int) *core.Result {
+	nctx := len(c09Ctx) + 1
+	w, ctx := k/nctx, k%nctx
+	wrapper, self := "X", c09Self[0]
+	if w < len(c09NonTail) {
+		wrapper = c09NonTail[w]
+	} else {
+		self = c09Self[w-len(c09NonTail)+1]
+	}
+	shape := func(inner string) string {
+		switch ctx {
+		case 1:
+			return "(cond (> n -1) " + inner + " -5)"
+		case 2:
+			return "(cond (< n -1) -6 (> n -1) " + inner + " -5)"
+		case 3:
+			return "(cond (< n -1) -6 " + inner + ")"
+		case 4:
+			return "(begin 7 " + inner + ")"
+		case 5:
+			return "(let [v9 n] 3 " + inner + ")"
+		case 6:
+			return "(letseq [w9 n z9 w9] " + inner + ")"
+		case 7:
+			return "(newScope (def s9 n) " + inner + ")"
+		case 8:
+			return "(and 1 (> n -1) " + inner + ")"
+		case 9:
+			return "(or 0 (< n -1) " + inner + ")"
+		}
+		return inner
+	}
+	build := func(selfcall string) string {
+		return "(defn f [n] (tr 1 n) (cond (<= n 0) 1 " + shape(strings.ReplaceAll(wrapper, "X", selfcall)) + "))\n"
+	}
+	opt, twin := build(self), build("(idw "+self+")")
+	res := &core.Result{Input: opt, Nontrivial: true}
+	res.Hash = core.HashOf(opt)
+	for _, n := range []int{0, 1, 3} {
+		call := fmt.Sprintf("(f %d)\n", n)
+		a, b := NewSutRun(true), NewSutRun(true)
+		oa := a.Eval(opt+call, 200000)
+		ob := b.Eval(twin+call, 200000)
+		res.Evals += 2
+		res.Ev("non_tail_contexts", 1)
+		if oa.Panic != "" {
+			res.Violate("escaped-panic:"+oa.Site, oa.Panic, opt+call)
+			return res
+		}
+		if ob.Budget || ob.Panic != "" {
+			res.Verdict, res.Key = core.Inconclusive, "twin-did-not-finish"
+			return res
+		}
+		outcome := func(o *sut.Outcome) string { // errors are compared by error-ness, never by text
+			if o.Err != nil || o.Budget {
+				return "ERR"
+			}
+			return OutStr(o)
+		}
+		if outcome(oa) != outcome(ob) || strings.Join(a.Trace, ",") != strings.Join(b.Trace, ",") {
+			res.Violate("non-tail-context-compiled-as-tail-call", fmt.Sprintf("(f %d): the function gives %s trace %v; with the self call wrapped in a host identity call it gives %s trace %v", n, OutStr(oa), a.Trace, OutStr(ob), b.Trace), opt+call)
+			return res
+		}
+		if d := sut.DepthsOf(a.Env); oa.Err == nil && (!atRest(d) || d.Data != 0) {
+			res.Violate("not-at-rest-after-tail-recursion", fmt.Sprintf("(f %d): %v", n, d), opt+call)
+			return res
+		}
+	}
+	return res
+}
+
 func c09Run(c *core.Ctx, i int) *core.Result {
 	shapes := c09Shapes(thorN(c, 2, 3))
+	if i >= len(shapes)*c09Bodies {
+		return c09NonTailRun(c, i-len(shapes)*c09Bodies)
+	}
 	shape := shapes[i/c09Bodies]
 	body := i % c09Bodies
 	fn := c09Fn(shape, body, false, false)
@@ -132,10 +223,10 @@ func c09Run(c *core.Ctx, i int) *core.Result {
 	res := &core.Result{Input: fmt.Sprintf("shape=%s body=%d\n%s", strings.Join(shape, ">"), body, text), Nontrivial: true}
 	res.Hash = core.HashOf(res.Input)
 	depths := []int64{0, 1, 10, 30, 100, 300, 1000}
-	if (c.Thor && i%2 == 0) || i%9 == 0 {
+	if (c.Thor && i%3 == 0) || i%9 == 0 {
 		depths = append(depths, 10000)
 	}
-	if c.Thor && i%9 == 0 {
+	if c.Thor && i%27 == 0 {
 		depths = append(depths, 100000)
 		if i%360 == 0 && body != 3 && body != 4 {
 			depths = append(depths, 1000000)
@@ -155,9 +246,15 @@ func c09Run(c *core.Ctx, i int) *core.Result {
 		prog := append([]*lang.N{tfn}, c09Call(body, n)...)
 		ptext := lang.Plain.Program(prog)
 		in := fmt.Sprintf("shape=%s body=%d n=%d\n%s", strings.Join(shape, ">"), body, n, ptext)
-		// reference
+		// reference (plain Go recursion: it cannot go a million activations deep itself, so
+		// at n > 10^5 only space, rest state and completion are judged)
+		useRef := n <= 100000
 		ref := &lang.R{MaxSteps: 80000000}
-		rv, rerr := ref.Run(prog, lang.NewEnv(nil))
+		var rv lang.V
+		var rerr *lang.ErrV
+		if useRef {
+			rv, rerr = ref.Run(prog, lang.NewEnv(nil))
+		}
 		// optimised
 		s := NewSutRun(false)
 		zygo.Verif.Watch = s.Env
@@ -167,11 +264,17 @@ func c09Run(c *core.Ctx, i int) *core.Result {
 		res.Evals++
 		res.Ev("depth_runs", 1)
 		res.Ev("vm_steps", o.Steps)
-		if key, detail := CompareRun(rv, rerr, ref.Trace, o, s.Trace); key != "" {
+		if !useRef {
+			if o.Err != nil || o.Panic != "" || o.Budget {
+				res.Violate("deep-tail-recursion-did-not-complete", fmt.Sprintf("n=%d: %s", n, OutStr(o)), in)
+				continue
+			}
+		} else if key, detail := CompareRun(rv, rerr, ref.Trace, o, s.Trace); key != "" {
 			res.Violate("vs-reference:"+key, detail, in)
 			continue
+		} else {
+			res.Ev("reference_comparisons", 1)
 		}
-		res.Ev("reference_comparisons", 1)
 		if d := sut.DepthsOf(s.Env); !atRest(d) || d.Data != 0 {
 			res.Violate("not-at-rest-after-tail-recursion", fmt.Sprintf("n=%d: %v", n, d), in)
 		}
